@@ -142,6 +142,18 @@ def theory_configs(r, tier):
                      '--erase-node'],
                     {'strategy': 'ddmin', 'jobs': 1, 'n': 'G',
                      'delays': [0, 1200, 2500]}))
+        # the same, steered: in the third run only, every accepted candidate
+        # from which the (exit) command is gone takes 3 s - less than the
+        # limit the golden run fixed (6 s), far more than 1.5 x (a quick
+        # accepted check + 1 s)
+        out.append((slow, {'mode': 'contains', 'markers': ['bug'],
+                           'slow_with': {'token': 'slowpart', 'ms': 3000}},
+                    ['--strategy', 'ddmin', '-j', '1', '--disable-all',
+                     '--erase-node'],
+                    {'strategy': 'ddmin', 'jobs': 1, 'n': 'G2',
+                     'delays': [0, 0, 0],
+                     'spec_k': [{}, {}, {'slow_without': {'token': 'exit',
+                                                          'ms': 3000}}]}))
     # (the automatic limit is (golden + 1 s) * 1.5: its margin over the
     # delays used here is 1.3 s and cannot be scaled, so the configuration is
     # left out on a machine too loaded for that)
@@ -192,6 +204,7 @@ def main():
             sp = dict(spec)
             sp['delay_ms'] = meta.get('delays', [0, 4, 9])[k]
             sp['delay_seed'] = r.randint(0, 10**6)
+            sp.update(meta.get('spec_k', [{}, {}, {}])[k])
             m = dict(meta)
             m['env'] = {'PYTHONHASHSEED': hs}
             if k == 2:
